@@ -631,15 +631,26 @@ def _is_len_phases(expr, f):
 def _is_count_guard(expr, f, repo, depth=0):
   """A test that witnesses 'this invocation wrote a phase record'."""
   if isinstance(expr, ast.Compare) and len(expr.ops) == 1:
-    sides = [expr.left, expr.comparators[0]]
-    if any(_is_len_phases(s, f) for s in sides):
-      other = [s for s in sides if not _is_len_phases(s, f)]
-      if not other:
+    l, r, op = expr.left, expr.comparators[0], expr.ops[0]
+    # len(phases) > prior   |   prior < len(phases)   |   len(phases) != prior
+    if _is_len_phases(l, f) and isinstance(op, (ast.Gt, ast.NotEq)):
+      o = r
+    elif _is_len_phases(r, f) and isinstance(op, (ast.Lt, ast.NotEq)):
+      o = l
+    else:
+      return False
+    if isinstance(o, ast.Name):
+      defs = lib.resolve_local(f, o.id)
+      if not (len(defs) == 1 and _is_len_phases(defs[0], f)):
         return False
-      o = other[0]
-      if isinstance(o, ast.Name):
-        defs = lib.resolve_local(f, o.id)
-        return bool(defs) and all(_is_len_phases(x, f) for x in defs)
+      # the prior count is taken before the phase is invoked
+      g = lib.cfg(f)
+      dn = [n for n in g.nodes if n.kind == 'stmt' and isinstance(
+          n.ast, ast.Assign) and n.ast.value is defs[0]]
+      inv = [n for n, c in lib.nodes_with_call(g) if last_attr(c) in (
+          'execute_phase', '_execute_phase_once')]
+      return bool(dn) and bool(inv) and all(
+          g.dominated_by(i, lambda x: x is dn[0]) for i in inv)
     return False
   if isinstance(expr, ast.Name) and depth < 2:
     defs = lib.resolve_local(f, expr.id)
